@@ -152,7 +152,16 @@ PARSER_MUTS = {
  'parser_args_swapped': ('parser.py', "        raise ex_class(string, pos)", "        raise ex_class(pos, string)", ['Parser.__call__']),
 }
 
-BY_PROPERTY = {'C13': [GRAPH_MUTS], 'C14': [KRIPKE_MUTS], 'C01': [CTL_MUTS], 'C05': [REWRITE_MUTS], 'C16': [BDD_MUTS], 'C03': [CTLS_MUTS], 'C07': [CTLS_MUTS], 'C02': [LTL_MUTS], 'C10': [PARSER_MUTS]}
+FAIR_MUTS = {
+ 'fair_label_into_next': ('kripke.py', "            self._labels[s].add(f_label)", "            self._next[s].add(f_label)", ['Kripke.label_fair_states']),
+ 'fair_label_into_S0': ('kripke.py', "            self._labels[s].add(f_label)", "            self._labels[s].add(f_label)\n            self.S0.add(s)", ['Kripke.label_fair_states']),
+ 'fair_states_alias': ('kripke.py', "        return R_graph.get_reachable_set_from(F_set)", "        R_graph.get_reachable_set_from(F_set)\n        return self.S0", ['Kripke.get_fair_states']),
+ 'fair_states_unknown_node': ('kripke.py', "        return R_graph.get_reachable_set_from(F_set)", "        F_set.add(None)\n        return R_graph.get_reachable_set_from(F_set)", ['Kripke.get_fair_states']),
+ 'fair_mc_no_clone': ('CTL/model_checking.py', "        kripke = kripke.clone()\n", "", ['CTL.modelcheck(fair)']),
+ 'fair_scc_first_of_F': ('kripke.py', "            if len(scc) == 1 or v not in self.next(v):", "            if len(scc) == 1 or v not in self.next(len(scc)):", ['Kripke.get_fair_states.<locals>.is_a_fair_SCC']),
+}
+
+BY_PROPERTY = {'C13': [GRAPH_MUTS], 'C14': [KRIPKE_MUTS], 'C01': [CTL_MUTS], 'C05': [REWRITE_MUTS], 'C16': [BDD_MUTS], 'C03': [CTLS_MUTS], 'C07': [CTLS_MUTS], 'C15': [FAIR_MUTS], 'C02': [LTL_MUTS], 'C10': [PARSER_MUTS]}
 # equivalent mutants (the change does not alter behaviour) are excluded from the requirement
 EQUIVALENT = {'sub_S0_all'}
 
